@@ -294,6 +294,9 @@ func genC06(t *rapid.T, _ *evid.Rec) caseC06 {
 		if rapid.IntRange(0, 3).Draw(t, "mutate") != 0 {
 			text = gen.Mutate(t, text, "mut")
 		}
+		if rapid.IntRange(0, 7).Draw(t, "prefixLine") == 0 {
+			text = gen.PrefixLine(t, text, "prefix")
+		}
 		if rapid.IntRange(0, 19).Draw(t, "huge") == 0 {
 			pos := rapid.IntRange(0, len(text)).Draw(t, "hugePos")
 			text = text[:pos] + rapid.SampledFrom(gen.HugeNumberTokens).Draw(t, "hugeTok") + text[pos:]
